@@ -531,7 +531,7 @@ func c01Exec(c *c01Case, wc int, delay int64) (*c01Run, error) {
 }
 
 func c01Readback(out []byte, rd int, reads []int, want []byte) (ok bool, msg string) {
-	br, err := bgzf.NewReader(bytes.NewReader(out), rd)
+	br, err := bgzf.NewReader(sourceFor(out), rd)
 	if err != nil {
 		if len(out) == 0 {
 			return len(want) == 0, "empty stream: " + err.Error()
